@@ -445,6 +445,7 @@ func RunC11(c *lib.Ctx) {
 	defer func() { srv.stop() }()
 	st := &canaryState{}
 	var stMu sync.Mutex
+	uncertain := false // an insertion request ended without a response: the accepted-event count is not known exactly
 	known := func() (string, uint64) {
 		stMu.Lock()
 		defer stMu.Unlock()
@@ -478,7 +479,13 @@ func RunC11(c *lib.Ctx) {
 		st.accepted++
 		st.events = append(st.events, ev)
 		stMu.Unlock()
-		if snap.Version != want {
+		if snap.Version != want && uncertain {
+			uncertain = false
+			stMu.Lock()
+			st.accepted = snap.Version + 1
+			stMu.Unlock()
+			c.Count("canary_resynchronised_after_unanswered_insertion", 1)
+		} else if snap.Version != want {
 			c.Violation("C11:canary:version", fmt.Sprintf("after %s a valid insertion got version %d although %d events were accepted before it (an earlier request was accepted without being applied, or applied without being accepted)", tag, snap.Version, want), map[string]string{"id": tag})
 			stMu.Lock()
 			st.accepted = snap.Version + 1
@@ -518,6 +525,33 @@ func RunC11(c *lib.Ctx) {
 		stMu.Unlock()
 		return canary("restart")
 	}
+	// phase 0: queries against a log that holds no event yet
+	if c.Only == "" {
+		empties := []struct{ path, cls, body string }{
+			{"/proofs/incremental", "empty-log:{}", "{}"}, {"/proofs/incremental", "empty-log:0-0", "{\"Start\":0,\"End\":0}"},
+			{"/proofs/incremental", "empty-log:0-5", "{\"Start\":0,\"End\":5}"}, {"/proofs/incremental", "empty-log:3-3", "{\"Start\":3,\"End\":3}"},
+			{"/proofs/membership", "empty-log:key", "{\"Key\":\"YQ==\"}"}, {"/proofs/membership", "empty-log:key-v0", "{\"Key\":\"YQ==\",\"Version\":0}"},
+			{"/proofs/membership", "empty-log:key-v7", "{\"Key\":\"YQ==\",\"Version\":7}"},
+			{"/proofs/digest-membership", "empty-log:digest", "{\"KeyDigest\":\"" + b64(hashing.NewSha256Hasher().Do([]byte("a"))) + "\"}"},
+			{"/proofs/digest-membership", "empty-log:digest-v0", "{\"KeyDigest\":\"" + b64(hashing.NewSha256Hasher().Do([]byte("a"))) + "\",\"Version\":0}"},
+		}
+		for i, e := range empties {
+			q := &c11req{ID: fmt.Sprintf("e%d", i), Mux: "api", Method: "POST", Path: e.path, Class: e.cls, body: []byte(e.body), cl: -1}
+			resp := rawRequest(srv.api(), buildRequest(q.Method, q.Path, q.body, q.cl, ""), 15*time.Second)
+			c.Count("requests_sent_to_empty_log", 1)
+			hc := rawRequest(srv.api(), buildRequest("HEAD", "/healthcheck", nil, -1, ""), 10*time.Second)
+			switch {
+			case !srv.alive():
+				fail(q, "server-died", fmt.Sprintf("POST %s (%s) on a log without events killed the server process", q.Path, q.Class))
+				return
+			case resp.err != "":
+				fail(q, "no-http-response", fmt.Sprintf("POST %s (%s) on a log without events got no well-formed HTTP response: %s", q.Path, q.Class, resp.err))
+			case hc.err != "" || hc.status != 204:
+				fail(q, "server-wedged", fmt.Sprintf("after POST %s (%s) on a log without events the server no longer answers HEAD /healthcheck", q.Path, q.Class))
+			}
+			c.Case(fmt.Sprintf("api/POST/%s/%s/%d", q.Path, q.Class, resp.status), resp.err == "")
+		}
+	}
 	if !canary("start") {
 		return
 	}
@@ -554,9 +588,15 @@ func RunC11(c *lib.Ctx) {
 		case resp.err == "":
 			c.Seen("status_codes", fmt.Sprint(resp.status))
 		case incomplete && resp.err == "timeout":
+			if strings.HasPrefix(q.Path, "/events") {
+				uncertain = true
+			}
 			// the server legitimately waits for the rest of a body that never comes
 			c.Count("incomplete_requests_timed_out(legitimate)", 1)
 		default:
+			if q.Mux == "api" && strings.HasPrefix(q.Path, "/events") {
+				uncertain = true
+			}
 			if srv.alive() {
 				fail(q, "no-http-response", fmt.Sprintf("%s %s (%s) on the %s interface got no well-formed HTTP response: %s", q.Method, q.Path, q.Class, q.Mux, resp.err))
 			}
@@ -708,6 +748,7 @@ func runC11Cluster(c *lib.Ctx) {
 	first, accepted = "cluster-first", v+1
 	all := c11corpus(r, c.Q(400, 4000), known)
 	sent := 0
+	clusterUncertain := false
 	for i := range all {
 		q := &all[i]
 		if q.Mux != "api" || !(q.Path == "/events" || q.Path == "/events/bulk") || q.Method != "POST" {
@@ -720,6 +761,9 @@ func runC11Cluster(c *lib.Ctx) {
 		}
 		for try := 0; try < len(procs); try++ {
 			resp := rawRequest(procs[leader].api(), raw, tmo)
+			if resp.err != "" {
+				clusterUncertain = true // no answer: the bulk may or may not have been accepted
+			}
 			if resp.err == "" && (resp.status == 301 || resp.status == 200 && bytes.Contains(resp.body, []byte("LeaderId"))) {
 				leader = (leader + 1) % len(procs) // not the leader (any more): ask the next node
 				continue
@@ -749,7 +793,9 @@ func runC11Cluster(c *lib.Ctx) {
 		c.Violation("C11:cluster:canary:add-failed", "after the corpus the cluster no longer accepts insertions", nil)
 		return
 	}
-	if ver != accepted {
+	if ver != accepted && clusterUncertain {
+		c.Count("cluster_count_uncertain(unanswered insertion request)", 1)
+	} else if ver != accepted {
 		c.Violation("C11:cluster:canary:version", fmt.Sprintf("final insertion got version %d, %d events were accepted before", ver, accepted), nil)
 	}
 	deadline := time.Now().Add(30 * time.Second)
